@@ -35,9 +35,11 @@ PROGRAMS = list(PROGRAMS) + [  # primitives in tight layouts: literals touching 
     "match s:\n case {**rest}: pass\n case [*star] if star: pass\n case p.q as r: pass\n case None: pass",
     # flags kept in primitive fields: async comprehensions, annotated targets with and without parentheses, u-prefixed strings
     "async def f():\n    return [x async for x in y if x], {k: v for k, v in z async for w in k}\n(a): int = 1\nb: str\n(c.d): e = u'text'\ns = 'plain', u'kind'",
+    # string statements over several lines that are no docstrings (inside blocks that are no scopes): their value follows the indentation
+    "def f(a):\n    if a:\n        \'\'\'not a\n        docstring\'\'\'\n        x = 1\n    for i in a:\n        \"\"\"s\n  t\"\"\"\n    return x\nwhile w:\n    \'l1 \\\n    l2\'\n    break",
 ]
-N_SHARED13 = len(PROGRAMS) - 5
-PROG_IDX = tuple(range(0, 40)) + (50, 51) + tuple(range(N_SHARED13, N_SHARED13 + 5))
+N_SHARED13 = len(PROGRAMS) - 6
+PROG_IDX = tuple(range(0, 40)) + (50, 51) + tuple(range(N_SHARED13, N_SHARED13 + 6))
 PROG_IDX_T = PROG_IDX
 D2 = (0, 1, 3, 7, 10, 11, 15, 16, 20, 22, 23, 28)
 
@@ -124,6 +126,9 @@ def enumerate_muts(tree):
                         out.append(('swap', path, field, i))
                 for i in range(n):
                     out.append(('dup', path, field, i))
+                    out.append(('wrap-if', path, field, i))  # the statement (its own nodes) one level deeper inside a new block
+                    if isinstance(lst[i], (ast.If, ast.For, ast.While, ast.With)) and not getattr(lst[i], 'orelse', None):
+                        out.append(('hoist', path, field, i))  # the body of a block in place of the block: one level up
             elif typ == 'expr' and field in ('decorator_list', 'bases'):  # list fields reconcile has no element-wise handling for
                 for i in range(n + 1):
                     out.append(('ins-expr', path, field, i))
@@ -213,6 +218,10 @@ def apply_mut(fst, tree, m):
         lst[m[3]], lst[m[3] + 1] = lst[m[3] + 1], lst[m[3]]
     elif kind == 'dup':
         lst.insert(m[3] + 1, lst[m[3]])
+    elif kind == 'wrap-if':
+        lst[m[3]] = ast.If(test=ast.Name(id='wr', ctx=ast.Load()), body=[lst[m[3]]], orelse=[])
+    elif kind == 'hoist':
+        lst[m[3]:m[3] + 1] = list(lst[m[3]].body)
     return {tuple(path) + ((field, '*'),)}
 
 
